@@ -43,8 +43,9 @@ type ctrlWorld struct {
 	slowSync      bool // the sync of list listFaultAt-1 takes 2.5 periods (a slow filter)
 	slowArmed     atomic.Bool
 	busy          atomic.Bool // the slow filter is asleep inside the library right now
-	overflow      bool // a burst of more than EventBufsiz changes arrives while the controller is busy in a sync
-	backlog       int // server changes since the watch was last seen connected at a quiescent point
+	overflow      bool        // a burst of more than EventBufsiz changes arrives while the controller is busy in a sync
+	backlog       int         // server changes since the watch was last seen connected at a quiescent point
+	keys          [][2]string // the object universe (four keys, or twelve: larger relist diffs)
 }
 
 var errListFault = errors.New("fake server: list fault")
@@ -85,7 +86,11 @@ func (w *ctrlWorld) srvEvent() {
 		return
 	}
 	w.backlog++
-	k := kv.Pick(w.r, treeKeys)
+	keys := w.keys
+	if keys == nil {
+		keys = treeKeys
+	}
+	k := kv.Pick(w.r, keys)
 	key := k[0] + "/" + k[1]
 	cur, ok := w.srv.Get(key)
 	var t watch.EventType
@@ -267,6 +272,9 @@ func runCtrlScenario(t *testing.T, tr *tracer, idx int, seed uint64, mode string
 			w.slowSync = true
 			w.period = kv.Pick(r, []time.Duration{10 * time.Second, time.Minute})
 		}
+		if r.Chance(1, 4) {
+			w.keys = [][2]string{{"a", "x"}, {"a", "y"}, {"b", "x"}, {"b", "y"}, {"a", "z"}, {"b", "z"}, {"a", "w"}, {"b", "w"}, {"c", "x"}, {"c", "y"}, {"c", "z"}, {"c", "w"}}
+		}
 		w.srv.RVStep = 1 + r.Intn(3)
 		w.srv.StaleList = r.Chance(1, 3) // a slow or gated list answers with what the server held when it was asked
 		emptyRV := mode == "" && !w.slowSync && w.listFaultAt == 0 && r.Chance(1, 10)
@@ -420,6 +428,24 @@ func runCtrlScenario(t *testing.T, tr *tracer, idx int, seed uint64, mode string
 				// server (deletes followed by re-creations included), then let the list return the new state
 				// while those events are still travelling through session, watcher and controller
 				gate := make(chan struct{})
+				if w.srv.StaleList && mode != "c04" && r.Chance(1, 2) {
+					// … and with the watch down beforehand (its reconnect is stuck until the relist resets it), so
+					// that the list finds a real difference to publish while the re-armed watch replays, at once,
+					// what happened after the list's snapshot
+					w.step("close-and-block", func() {
+						w.watchBlock = true
+						tr.line(kv.L("watch-block"))
+						w.inject("close")
+					})
+					w.step("advance-retry", func() { w.advance(kcache.VerifWatchRetryDelay + kcache.VerifWatchRetryDelay/2) })
+					w.step("burst", func() {
+						tr.line(kv.L("burst-begin"))
+						for j := inflight(10 + r.Intn(12)); j > 0; j-- {
+							w.srvEvent()
+						}
+						tr.line(kv.L("burst-end"))
+					})
+				}
 				w.step("gate-relist", func() {
 					w.srv.Mu(func() { w.srv.ListGate = gate })
 					w.advance(w.period + w.period/6)
